@@ -511,7 +511,7 @@ def epochs_case(ctx, case):
             kw = dict(max_datagram_frame_size=65536)
             c0 = QuicConnection(configuration=E.client_config(**kw), session_ticket_handler=got.append)
             c0.connect(E.SERVER_ADDR, now=0.0)
-            s0 = QuicConnection(configuration=E.server_config(**kw), original_destination_connection_id=c0.original_destination_connection_id, session_ticket_fetcher=store.pop, session_ticket_handler=lambda t: store.__setitem__(t.ticket, t))
+            s0 = QuicConnection(configuration=E.server_config(**kw), original_destination_connection_id=c0.original_destination_connection_id, session_ticket_fetcher=lambda k: store.pop(k, None), session_ticket_handler=lambda t: store.__setitem__(t.ticket, t))
             now = 0.0
             for _ in range(6):
                 now += 0.001
